@@ -20,11 +20,10 @@ Proof.
 Qed.
 
 Section GT.
-Variable anyb : bool.
 Variable sub : cls -> cls -> bool.
 Hypothesis sub_refl : forall c, sub c c = true.
 Variable k : nat.
-Notation mem := (member anyb sub).
+Notation mem := (member false sub).
 
 Definition gt_ok (v : value) : Prop :=
   wf_valueb v = true -> forall t, get_type k v = Some t -> mem v t = true /\ wf_ty t.
@@ -195,10 +194,16 @@ End GT.
 Lemma subclass_refl h c : subclass h c c = true.
 Proof. unfold subclass. rewrite N.eqb_refl. reflexivity. Qed.
 
-Lemma infer_sound_hier (anyb : bool) (h : hierarchy) (k : nat) (vs : list value) (t : ty) (v : value) :
-  forallb wf_valueb vs = true -> infer k vs = Some t -> In v vs -> member anyb (subclass h) v t = true.
+(* tight reading (Any admits nothing): the strongest form *)
+Lemma infer_sound_hier (h : hierarchy) (k : nat) (vs : list value) (t : ty) (v : value) :
+  forallb wf_valueb vs = true -> infer k vs = Some t -> In v vs -> member false (subclass h) v t = true.
 Proof. apply infer_sound_gen. apply subclass_refl. Qed.
+
+(* annotation reading (Any admits everything): a corollary *)
+Lemma infer_sound_hier_anno (h : hierarchy) (k : nat) (vs : list value) (t : ty) (v : value) :
+  forallb wf_valueb vs = true -> infer k vs = Some t -> In v vs -> member true (subclass h) v t = true.
+Proof. intros W I Hv. apply member_any_mono. eapply infer_sound_hier; eauto. Qed.
 
 Lemma infer_wf_closed (k : nat) (vs : list value) (t : ty) :
   forallb wf_valueb vs = true -> infer k vs = Some t -> wf_ty t.
-Proof. apply (infer_wf true (fun c a => N.eqb c a)). intros c. apply N.eqb_refl. Qed.
+Proof. apply (infer_wf (fun c a => N.eqb c a)). intros c. apply N.eqb_refl. Qed.
